@@ -6,6 +6,7 @@ import (
 	"time"
 
 	"go.lstv.dev/util/internal/vsim/sched"
+	"go.lstv.dev/util/internal/vsim/vchan"
 )
 
 // Types are aliases so values flow freely between real and simulated code.
@@ -75,16 +76,82 @@ func Since(t Time) Duration { return Now().Sub(t) }
 // Until is time.Until on the simulated clock.
 func Until(t Time) Duration { return t.Sub(Now()) }
 
-// Sleep advances the simulated clock and yields.
+type sleeper struct {
+	s  *sched.Sim
+	at int64
+}
+
+func (w sleeper) Free(t *sched.Task) bool { return w.s.MonoNs >= w.at }
+func (w sleeper) Name() string            { return "sleep until the simulated clock reaches its deadline" }
+
+// Sleep blocks the task until the simulated clock has advanced by d. Other tasks run
+// meanwhile; when nothing is runnable the scheduler jumps the clock to the next deadline.
 func Sleep(d Duration) {
 	s := sched.Cur
 	if s == nil || s.Aborted() {
 		return
 	}
-	if d > 0 {
-		s.NowNs += int64(d)
-	}
+	s.YieldHint()
 	s.Yield(sched.KSleep, 0)
+	if d <= 0 || s.Aborted() {
+		return
+	}
+	w := sleeper{s, s.MonoNs + int64(d)}
+	s.AddTimer(int64(d), func() {})
+	s.BlockOn(w, 0)
+}
+
+// After returns a channel that receives the simulated time once d has passed.
+func After(d Duration) *vchan.Chan[Time] {
+	c := vchan.Make[Time](1)
+	s := sched.Cur
+	if s == nil || s.Aborted() {
+		return c
+	}
+	s.AddTimer(int64(d), func() { c.TrySendFromTimer(time.Unix(0, Epoch+s.NowNs).UTC()) })
+	return c
+}
+
+// Timer is a one-shot simulated timer.
+type Timer struct {
+	C       *vchan.Chan[Time]
+	stopped *bool
+}
+
+// NewTimer returns a timer that fires after d.
+func NewTimer(d Duration) *Timer {
+	c := vchan.Make[Time](1)
+	stopped := new(bool)
+	if s := sched.Cur; s != nil && !s.Aborted() {
+		s.AddTimer(int64(d), func() {
+			if !*stopped {
+				*stopped = true
+				c.TrySendFromTimer(time.Unix(0, Epoch+s.NowNs).UTC())
+			}
+		})
+	}
+	return &Timer{C: c, stopped: stopped}
+}
+
+// Stop prevents the timer from firing; it reports whether it did.
+func (t *Timer) Stop() bool {
+	was := !*t.stopped
+	*t.stopped = true
+	return was
+}
+
+// AfterFunc runs f on its own simulated goroutine after d.
+func AfterFunc(d Duration, f func()) *Timer {
+	stopped := new(bool)
+	if s := sched.Cur; s != nil && !s.Aborted() {
+		s.AddTimer(int64(d), func() {
+			if !*stopped {
+				*stopped = true
+				sched.GoFromTimer(f)
+			}
+		})
+	}
+	return &Timer{C: nil, stopped: stopped}
 }
 
 // Pass-throughs.
